@@ -78,7 +78,10 @@ FunctionMenu == {
 
 \* C08
 NegZeroOrZero == CaseE(<<<<CmpE("=", V, One), Lit(RealV(0, 1))>>>>, Lit(NZero))
+NaNOrNNaN == CaseE(<<<<CmpE("=", V, One), Lit(NaN)>>>>, Lit(NNaN))        \* two NaNs of different bit patterns are one value
 DistinctMenu == {
+  Sel(<<P(NaNOrNNaN, "f"), P(K, "")>>, NoE, TRUE, NoLimit, "none"),
+  Sel(<<P(NaNOrNNaN, "f")>>, NoE, TRUE, NoLimit, "none"),
   Sel(<<P(K, "")>>, NoE, TRUE, NoLimit, "none"),
   Sel(<<P(K, ""), P(V, "")>>, NoE, TRUE, NoLimit, "none"),
   Sel(<<P(V, ""), P(Lit(Null), "z")>>, NoE, TRUE, NoLimit, "none"),
@@ -291,6 +294,7 @@ PairMenu ==
   {Sel(<<P(CmpE("=", Lit(p[1]), Lit(p[2])), "eq"), P(CmpE("<", Lit(p[1]), Lit(p[2])), "lt"), P(CmpE(">=", Lit(p[1]), Lit(p[2])), "ge"),
          P(CmpE("!=", Lit(p[1]), Lit(p[2])), "ne")>>, NoE, FALSE, NoLimit, "none") : p \in Pairs}
   \cup {Sel(<<P(Pick(p[1], p[2]), "x")>>, NoE, TRUE, NoLimit, "none") : p \in Pairs}
+  \cup {Sel(<<P(Pick(p[1], p[2]), "x"), P(K, "")>>, NoE, TRUE, NoLimit, "none") : p \in Pairs}        \* the value is not the last member of the hashed tuple
   \cup {Agg(<<ItE("key", Pick(p[1], p[2]), "x"), CountStar>>, <<Pick(p[1], p[2])>>, NoE, NoH, FALSE, NoLimit, "none") : p \in Pairs}
   \cup {Agg(<<ItE("min", Pick(p[1], p[2]), "lo"), ItE("max", Pick(p[1], p[2]), "hi")>>, <<>>, NoE, NoH, FALSE, NoLimit, "none") : p \in Pairs}
   \cup {Sel(<<P(Call("array_unique", <<Call("array", <<Lit(p[1]), Lit(p[2]), Lit(p[1])>>)>>), "u")>>, NoE, FALSE, NoLimit, "none") : p \in {x \in Pairs : x[1].t # "arr"}}
@@ -329,6 +333,9 @@ LinesNoise == {KV(A, IntV(1)), KV(B, IntV(2)), KV(A, Null), KV(Null, IntV(3)), K
 LongJoin == [i \in 1..34 |-> IF i % 2 = 0 THEN KV(A, IntV(i)) ELSE KV(B, IntV(i))]
 LongJoinNoise == [i \in 1..34 |-> IF i \in {11, 21, 31} THEN Garbage ELSE IF i % 2 = 0 THEN KV(A, IntV(i)) ELSE KV(B, IntV(i))]   \* non-rows exactly where the flag is sampled
 JoinSetsLong == {LongJoin, LongJoinNoise}
+\* 120 joined lines, three keys interleaved irregularly (partners of one key are scattered; an index built by sorting must be stable), some non-rows
+LongJoinMixed == [i \in 1..120 |-> IF i % 13 = 0 THEN Garbage ELSE IF (i * i) % 7 \in {0, 1} THEN KV(A, IntV(i)) ELSE IF (i * i) % 7 = 2 THEN KV(B, IntV(i)) ELSE KV(TextV(<<99>>), IntV(i))]
+JoinSetsMixed == {LongJoinMixed}
 Lines3 == {KV(A, IntV(1)), KV(B, IntV(2)), KV(Null, IntV(0)), KV(A, Null), Garbage}
 LinesJ == {KV(A, IntV(1)), KV(B, IntV(2)), KV(Null, IntV(1))}
 JoinSets == {<<>>, <<KV(A, IntV(5))>>, <<KV(A, IntV(0)), KV(A, IntV(5))>>, <<KV(B, IntV(5)), KV(A, IntV(5)), KV(A, IntV(6))>>, <<KV(A, IntV(5)), KV(A, IntV(0)), KV(Null, IntV(9))>>, <<KV(B, IntV(1)), Garbage, KV(A, IntV(3))>>}
